@@ -1540,12 +1540,26 @@ def gen_int(rng, d):
     return Node("neg", "-", [gen_int(rng, d - 1)], P_UM, "i")
 
 
+def has_col(n):
+    return n.kind == "col" or any(has_col(k) for k in n.kids)
+
+
+def gen_int_col(rng, d):
+    """an integer expression that references a column (constant sub-conditions would fold to equal literals, which
+    the recorded distributive-OR absorption defect then treats as a common term)"""
+    for _ in range(50):
+        n = gen_int(rng, d)
+        if has_col(n):
+            return n
+    return Node("col", rng.choice("abc"), [], P_ATOM, "i")
+
+
 def gen_bool(rng, d):
     r = rng.random()
     if d <= 0 or r < 0.12:
         return Node("col", rng.choice("de"), [], P_ATOM, "b")
     if r < 0.4:
-        return Node("bin", rng.choice(["=", "<>", "<", "<=", ">", ">="]), [gen_int(rng, d - 1), gen_int(rng, d - 1)], P_CMP, "b")
+        return Node("bin", rng.choice(["=", "<>", "<", "<=", ">", ">="]), [gen_int_col(rng, d - 1), gen_int(rng, d - 1)], P_CMP, "b")
     if r < 0.52:
         return Node("bin", "and", [gen_bool(rng, d - 1), gen_bool(rng, d - 1)], P_AND, "b")
     if r < 0.64:
@@ -1553,15 +1567,15 @@ def gen_bool(rng, d):
     if r < 0.72:
         return Node("not", "not", [gen_bool(rng, d - 1)], P_NOT, "b")
     if r < 0.8:
-        k = gen_bool(rng, d - 1) if rng.random() < 0.5 else gen_int(rng, d - 1)
+        k = gen_bool(rng, d - 1) if rng.random() < 0.5 else gen_int_col(rng, d - 1)
         return Node("post", rng.choice(["is null", "is not null"]), [k], P_IS, "b")
     if r < 0.86:
-        return Node("between", rng.choice(["between", "not between"]), [gen_int(rng, d - 1), gen_int(rng, d - 1), gen_int(rng, d - 1)], P_CONT, "b")
+        return Node("between", rng.choice(["between", "not between"]), [gen_int_col(rng, d - 1), gen_int(rng, d - 1), gen_int(rng, d - 1)], P_CONT, "b")
     if r < 0.92:
-        return Node("in", rng.choice(["in", "not in"]), [gen_int(rng, d - 1), gen_int(rng, d - 1), gen_int(rng, d - 1)], P_CONT, "b")
+        return Node("in", rng.choice(["in", "not in"]), [gen_int_col(rng, d - 1), gen_int(rng, d - 1), gen_int(rng, d - 1)], P_CONT, "b")
     if r < 0.96:
         return Node("bin", rng.choice(["=", "<>"]), [gen_bool(rng, d - 1), gen_bool(rng, d - 1)], P_CMP, "b")
-    return Node("bin", rng.choice(["is distinct from", "is not distinct from"]), [gen_int(rng, d - 1), gen_int(rng, d - 1)], P_IS, "b")
+    return Node("bin", rng.choice(["is distinct from", "is not distinct from"]), [gen_int_col(rng, d - 1), gen_int(rng, d - 1)], P_IS, "b")
 
 
 def render(n, full):
